@@ -145,6 +145,20 @@ def two_body(c, rec):
         for j in range(k):
             single = dyn.propagate(t0, t0 + t_end, batch[j].copy())
             _cmp("batch", out[:, j], single, rec, scale, f"column {j} of a batch of {k} vs the same state propagated alone over {t_end!r}s")
+        # the same batch while a finite burn of constant inertial acceleration is on for the whole span (the filter propagates
+        # its sigma points with the target's scheduled events): every column must equal that state propagated alone with the burn
+        if 30.0 <= t_end <= 7200.0:
+            from functools import partial
+
+            from resonaate.dynamics.integration_events.finite_thrust import ScheduledFiniteBurn, eciBurn
+            from resonaate.physics.time.stardate import ScenarioTime
+
+            mkb = lambda: ScheduledFiniteBurn(ScenarioTime(t0 - 5.0), ScenarioTime(t0 + t_end + 5.0), partial(eciBurn, acc_vector=np.array([0.0, 1e-7, 0.0])), 1)  # noqa: E731  (<= 0.7 m/s in all: no orbit is lowered into the ground)
+            out_b = TwoBody(method=c["method"]).propagate(t0, t0 + t_end, arr.copy(), scheduled_events=[mkb()])
+            rec.label("batch_with_active_burn")
+            for j in range(k):
+                single_b = TwoBody(method=c["method"]).propagate(t0, t0 + t_end, batch[j].copy(), scheduled_events=[mkb()])
+                _cmp("batch_burn", out_b[:, j], single_b, rec, scale, f"column {j} of a batch of {k} propagated with an active finite burn vs the same state alone with the burn ({t_end!r}s)")
     # output grid
     if c["grid"]:
         times = [t0] + sorted(t0 + g * t_end for g in c["grid"]) + [t0 + t_end]
